@@ -9,7 +9,7 @@ ASSUMPTIONS = ["host zone is UTC for create_schedule in this check (zones are C1
                "login reply of at least 12 bytes; device id 6 hex digits; a single multi-byte character as name, slot ids other than "
                "'0'..'7' and positions above 100 are unspecified and not compared"]
 RULE = ("operations 1-11 of both APIs with boundary arguments: minutes 0, 1, 71582788, 71582789, negative; auto-shutdown every second "
-        "around 3600 and 86340..86401; names of 0..40 characters in five scripts; all slots; positions 0..100; day sets in set and "
+        "around 3600 and 86340..86401, values beyond one day and negative ones; names of 0..40 characters in five scripts; all slots; positions 0..100; day sets in set and "
         "sequence form with and without duplicates; well-formed and malformed clock strings; random ids, sessions, clock readings; "
         "non-trivial = distinct cases whose Spec verdict is a frame or a mandatory refusal")
 REQUIREMENT = ("command frame = independent layout of Spec/FrameLayout.v rendered with the declared meaning of the arguments "
@@ -66,6 +66,7 @@ def boundary_cases(rnd, tier):
     for m in [0, 1, 2, 59, 60, 1439, 71582787, 71582788, 71582789, 71582790, -1, -60, 2 ** 31, 2 ** 40]:
         for on in (True, False): cs.append(with_args(rnd, 1, [on, m]))
     secs = list(range(3590, 3665)) + list(range(86335, 86405)) + [0, 1, 59, 60, 7200, 43200]
+    secs += [90000, 93600, 86400 + 3599, 86400 + 43200, 2 * 86400 + 9000, 7 * 86400 + 43200, 10 ** 7, -1, -59, -60, -3600, -7200, -79200, -86400 + 7200, -10 ** 6]   # days part, negatives
     if tier == "thorough": secs = list(range(3000, 87000))
     for s in secs: cs.append(with_args(rnd, 2, [s, rnd.choice([0, 0, 1, 999999])]))
     for alph in world.NAME_ALPHABETS.values():
